@@ -90,6 +90,8 @@ func (u *memoryManagementUnit) getFromMemory(addrs []int32) []int8 {
 }
 
 func (u *memoryManagementUnit) fetchCacheLine(addr int32) []int8 {
+	// A cache line starts at a multiple of the line size
+	addr -= addr % l1DCacheLineSize
 	memory := make([]int8, 0, l1DCacheLineSize)
 	for i := 0; i < l1DCacheLineSize; i++ {
 		if int(addr)+i >= len(u.ctx.Memory) {
@@ -102,11 +104,15 @@ func (u *memoryManagementUnit) fetchCacheLine(addr int32) []int8 {
 }
 
 func (u *memoryManagementUnit) pushLineToL1D(addr comp.AlignedAddress, line []int8) {
-	evicted := u.l1d.PushLine(addr, line)
-	if len(evicted) == 0 {
+	// A cache line starts at a multiple of the line size
+	addr -= addr % l1DCacheLineSize
+	evicted := u.l1d.PushLineWithEvictionWarning(addr, line)
+	if evicted == nil {
 		return
 	}
-	u.writeToMemory(addr, line)
+	// Write back the evicted line
+	u.writeToMemory(evicted.Boundary[0], evicted.Data)
+	u.l1d.EvictCacheLine(evicted.Boundary[0])
 }
 
 func (u *memoryManagementUnit) writeToL1D(addr int32, data []int8) {
